@@ -33,7 +33,7 @@ def generate(rng, tier):
     cases = []
     thorough = tier == "thorough"
     specs = specs_pool(rng, 40 if thorough else 10)
-    for k in range(2500 if thorough else 400):
+    for k in range(2500 * TH if thorough else 400):
         sp = rng.choice(specs)
         nodes = strip_enc(E.rand_doc(rng, sp, big=False, unknown_ok=False, widths=False))
         if not nodes:
